@@ -9,6 +9,7 @@ import (
 	"runtime/pprof"
 	"time"
 
+	"verif/internal/enum"
 	"verif/internal/fw"
 )
 
@@ -68,6 +69,10 @@ func main() {
 		}()
 	}
 	r := fw.New(id, tier)
-	p.run(r)
+	enum.OnPanic = fw.Recover
+	func() {
+		defer fw.Recover()
+		p.run(r)
+	}()
 	os.Exit(r.Finish())
 }
